@@ -898,6 +898,12 @@ class StrEval:
         return ("opaque", e)
 
     def _call(self, e, fc, env):
+        from .pysrc import unpartial as _unp
+
+        up_ = _unp(self.prog, fc.module, e) if not (isinstance(e.func, ast.Name) and e.func.id in env) else None
+        if up_ is not None:
+            ast.fix_missing_locations(up_)
+            e = up_   # a module-level partial application, called
         fn = dotted(e.func)
         # -- str methods on abstract strings -----------------------------------------------------
         if isinstance(e.func, ast.Attribute):
